@@ -154,63 +154,45 @@ def check(run):
         except ValueError as e:
             ok_range = None
         idxs = set()
+        loop_defs = {}
+        for st_ in iter_stmts(loop.body):
+            if isinstance(st_, ast.Assign) and len(st_.targets) == 1 and isinstance(st_.targets[0], ast.Name):
+                loop_defs.setdefault(st_.targets[0].id, []).append(st_.value)
+
+        def jaff(node, depth=0):
+            """(a, b) with index = a*j + b, resolving single-definition locals of the loop body and function-level constants"""
+            if isinstance(node, ast.Constant) and isinstance(node.value, int) and not isinstance(node.value, bool):
+                return (0, node.value)
+            if isinstance(node, ast.Name):
+                if node.id == j:
+                    return (1, 0)
+                if depth < 4 and len(loop_defs.get(node.id, [])) == 1:
+                    return jaff(loop_defs[node.id][0], depth + 1)
+                if depth < 4 and node.id in consts and node.id not in loop_defs:
+                    return jaff(consts[node.id], depth + 1)
+                raise ValueError(node.id)
+            if isinstance(node, ast.BinOp) and isinstance(node.op, (ast.Add, ast.Sub)):
+                l, r = jaff(node.left, depth), jaff(node.right, depth)
+                sg = 1 if isinstance(node.op, ast.Add) else -1
+                return (l[0] + sg * r[0], l[1] + sg * r[1])
+            raise ValueError(norm(node))
         for n_ in ast.walk(loop):
             if isinstance(n_, ast.Subscript) and isinstance(n_.value, ast.Name) and n_.value.id == xp:
-                s = n_.slice
-                if isinstance(s, ast.Constant):
-                    idxs.add(("c", s.value))
-                elif isinstance(s, ast.BinOp) and isinstance(s.op, ast.Add) and isinstance(s.left, ast.Name) and s.left.id == j and isinstance(s.right, ast.Constant):
-                    idxs.add(("j", s.right.value))
-                elif isinstance(s, ast.Name) and s.id == j:
-                    idxs.add(("j", 0))
-                else:
-                    idxs.add(("?", norm(s)))
+                try:
+                    a_, b_ = jaff(n_.slice)
+                    idxs.add(("c", b_) if a_ == 0 else ("j", b_) if a_ == 1 else ("?", norm(n_.slice)))
+                except ValueError:
+                    idxs.add(("?", norm(n_.slice)))
         want = {("c", 0), ("j", 1), ("j", 2)}
         if ok_range and idxs == want:
             run.holds("IDX/fan-triangulation", c, where(g, loop), "triangles (0, j+1, j+2) for j in range(0, len(x)-2): the fan covers the polygon once")
-        elif ok_range is None:
-            run.incomplete("IDX/fan-triangulation", c, where(g, loop), "loop bounds not affine in len(x)")
+        elif ok_range is None or any(k == "?" for k, _v in idxs):
+            run.incomplete("IDX/fan-triangulation", c, where(g, loop), f"loop bounds / corner indices not affine in len(x) and the loop variable: {sorted(map(str, idxs))}")
         else:
             run.violation("IDX/fan-triangulation", c, where(g, loop),
                           f"fan triangulation is not (0, j+1, j+2) for j in range(0, n-2): loop {norm(loop.iter)}, corner indices {sorted(map(str, idxs))}")
         # quadrature pairing
-        for rule_name, want_g, n_w in (("gaussian", {"dG[0][p]", "dG[0][q]"}, 2), ("triangular", {"dG[p][0]", "dG[p][1]"}, 1)):
-            blk = None
-            for st in iter_stmts(loop.body):
-                if isinstance(st, ast.If) and isinstance(st.test, ast.Compare) and str_const(st.test.comparators[0]) == rule_name and "quadrature_rule" in norm(st.test.left):
-                    blk = st
-            cc = f"{g.key}:pairing[{rule_name}]"
-            if blk is None:
-                run.incomplete("IDX/quadrature-pairing", cc, where(g, loop), "quadrature branch not found")
-                continue
-            # rename loop variables to canonical p, q by order of nesting
-            loops = [s for s in iter_stmts([blk] if rule_name == "gaussian" else [blk]) if isinstance(s, ast.For)]
-            outer = next((s for s in iter_stmts(loop.body) if isinstance(s, ast.For)), None)
-            names = []
-            if outer is not None and isinstance(outer.target, ast.Name):
-                names.append(outer.target.id)
-            for s in iter_stmts(blk.body):
-                if isinstance(s, ast.For) and isinstance(s.target, ast.Name):
-                    names.append(s.target.id)
-            canon = dict(zip(names, ["p", "q"]))
-            def cn(node):
-                t = norm(node)
-                for a, b in canon.items():
-                    t = t.replace(f"[{a}]", f"[{b}]")
-                return t
-            gs = {cn(s.value) for s in iter_stmts(blk.body) if isinstance(s, ast.Assign) and isinstance(s.value, ast.Subscript) and cn(s.value).startswith("dG")}
-            aug = [s for s in iter_stmts(blk.body) if isinstance(s, ast.AugAssign) and isinstance(s.target, ast.Name) and s.target.id == "area"]
-            ws = set()
-            for s in aug:
-                for n_ in ast.walk(s.value):
-                    if isinstance(n_, ast.Subscript) and cn(n_).startswith("dW"):
-                        ws.add(cn(n_))
-            want_w = {"dW[p]", "dW[q]"} if n_w == 2 else {"dW[p]"}
-            prod_ok = bool(aug) and all(isinstance(s.op, ast.Add) for s in aug) and all("jacobian" in norm(s.value) and "+" not in norm(s.value) for s in aug)
-            if gs == want_g and ws == want_w and prod_ok:
-                run.holds("IDX/quadrature-pairing", cc, where(g, blk), f"nodes {sorted(gs)}, area += product of {sorted(ws)} and the Jacobian")
-            else:
-                run.violation("IDX/quadrature-pairing", cc, where(g, blk), f"{rule_name} quadrature loop pairs nodes {sorted(gs)} with weights {sorted(ws)} (expected {sorted(want_g)} / {sorted(want_w)}, accumulated as a product with the Jacobian)")
+        _pairing(run, g, loop, consts)
     # ---- units, gather fill-safety in area.py and its callers in grid.py
     R = dataflow(P, run.tier)
     ok, bad = emit(run, R, {"UNIT/deg->trig", "UNIT/double-conversion", "IDX/fill-safety", "IDX/space"}, files=[AREA])
@@ -300,6 +282,114 @@ def _memo_paths(run, P, f):
         run.violation("F-CACHE/face-areas", c, where(f, short[0].events[-1] if short[0].events else None),
                       f"{len(short)} returning path(s) hand back stored areas (guarded by {guard_attrs}) without recomputing; the node coordinate setters {stale[:5]} do not reset that memo, "
                       "so after the geometry is edited compute_face_areas/integrate keep using the areas of the previous geometry")
+
+
+def _pairing(run, g, loop, consts):
+    """Inside the triangle loop every accumulation  area += <weights> * <jacobian>  is collected with its context: the enclosing quadrature loops (canonical p, q
+    by nesting), the quadrature rule the enclosing conditions select (names resolved through function-level assignments), and the node arguments of the Jacobian
+    call (locals resolved).  gaussian: nodes dG[0][p], dG[0][q], weights dW[p]*dW[q], tensor Jacobian; triangular: nodes dG[p][0], dG[p][1], weight dW[p],
+    barycentric Jacobian."""
+    RULES = ("gaussian", "triangular")
+    WANT = {"gaussian": ({"dG[0][p]", "dG[0][q]"}, {"dW[p]", "dW[q]"}, "calculate_spherical_triangle_jacobian"),
+            "triangular": ({"dG[p][0]", "dG[p][1]"}, {"dW[p]"}, "calculate_spherical_triangle_jacobian_barycentric")}
+    sites = []
+
+    def rule_of(test, depth=0):
+        """(rule, True) when the test is  quadrature_rule == "<rule>"  (possibly through a local flag), negations flipped; None otherwise"""
+        if isinstance(test, ast.UnaryOp) and isinstance(test.op, ast.Not):
+            r = rule_of(test.operand, depth)
+            return (r[0], not r[1]) if r else None
+        if isinstance(test, ast.Name) and test.id in consts and depth < 3:
+            return rule_of(consts[test.id], depth + 1)
+        if isinstance(test, ast.Compare) and len(test.ops) == 1 and isinstance(test.ops[0], (ast.Eq, ast.NotEq)):
+            l, r = test.left, test.comparators[0]
+            for x, y in ((l, r), (r, l)):
+                if isinstance(x, ast.Name) and x.id == "quadrature_rule" and str_const(y) in RULES:
+                    return (str_const(y), isinstance(test.ops[0], ast.Eq))
+        return None
+
+    def walk(stmts, loops, rules, env):
+        for st in stmts:
+            if isinstance(st, ast.Assign) and len(st.targets) == 1 and isinstance(st.targets[0], ast.Name):
+                env[st.targets[0].id] = st.value
+            elif isinstance(st, ast.For) and isinstance(st.target, ast.Name):
+                walk(st.body, loops + [st.target.id], rules, dict(env))
+            elif isinstance(st, ast.If):
+                r = rule_of(st.test)
+                if r is None:
+                    walk(st.body, loops, rules, dict(env))
+                    walk(st.orelse, loops, rules, dict(env))
+                else:
+                    sel = {r[0]} if r[1] else set(RULES) - {r[0]}
+                    walk(st.body, loops, rules & sel, dict(env))
+                    walk(st.orelse, loops, rules - sel, dict(env))
+            elif isinstance(st, ast.AugAssign) and isinstance(st.target, ast.Name) and st.target.id == "area":
+                sites.append((st, list(loops), set(rules), dict(env)))
+
+    walk(loop.body, [], set(RULES), {})
+
+    def resolve(e, env, depth=0):
+        while isinstance(e, ast.Name) and e.id in env and depth < 4:
+            e = env[e.id]
+            depth += 1
+        return e
+
+    def factors(e):
+        if isinstance(e, ast.BinOp) and isinstance(e.op, ast.Mult):
+            return factors(e.left) + factors(e.right)
+        return [e]
+
+    for rule_name in RULES:
+        cc = f"{g.key}:pairing[{rule_name}]"
+        mine = [s_ for s_ in sites if rule_name in s_[2]]
+        if not mine:
+            run.incomplete("IDX/quadrature-pairing", cc, where(g, loop), "no accumulation into area found under this quadrature rule")
+            continue
+        want_g, want_w, want_callee = WANT[rule_name]
+        bad, unknown, desc = [], [], []
+        for st, loops, rules, env in mine:
+            canon = dict(zip(loops, ["p", "q", "r"]))
+
+            def cn(node):
+                t = norm(node)
+                for a_, b_ in canon.items():
+                    t = t.replace(f"[{a_}]", f"[{b_}]")
+                return t
+            if not isinstance(st.op, ast.Add):
+                bad.append(f"{norm(st)[:50]} does not add")
+                continue
+            ws, jac = set(), None
+            for fct in factors(st.value):
+                r = resolve(fct, env)
+                if isinstance(r, ast.Subscript) and cn(r).startswith("dW"):
+                    ws.add(cn(r))
+                elif isinstance(r, ast.Call) and (dotted(r.func) or [""])[-1].startswith("calculate_spherical_triangle_jacobian"):
+                    jac = r
+                else:
+                    unknown.append(f"factor {norm(fct)[:40]} of {norm(st)[:50]}")
+            if jac is None:
+                if not unknown:
+                    bad.append(f"{norm(st)[:60]} is not a product with the Jacobian")
+                continue
+            callee = (dotted(jac.func) or [""])[-1]
+            nodes = {cn(resolve(a_, env)) for a_ in jac.args[3:5]}
+            desc.append(f"nodes {sorted(nodes)}, weights {sorted(ws)}, {callee}")
+            if len(rules) > 1:
+                unknown.append(f"{norm(st)[:50]} is not under a condition that selects one quadrature rule")
+            if any(not t.startswith("dG") for t in nodes):
+                unknown.append(f"quadrature node arguments {sorted(nodes)}")
+            elif nodes != want_g:
+                bad.append(f"nodes {sorted(nodes)} (expected {sorted(want_g)})")
+            if ws != want_w:
+                bad.append(f"weights {sorted(ws)} (expected {sorted(want_w)})")
+            if callee != want_callee:
+                bad.append(f"Jacobian {callee} (expected {want_callee})")
+        if bad:
+            run.violation("IDX/quadrature-pairing", cc, where(g, mine[0][0]), f"{rule_name} quadrature accumulates with " + "; ".join(bad))
+        elif unknown:
+            run.incomplete("IDX/quadrature-pairing", cc, where(g, mine[0][0]), "idiom not recognised: " + "; ".join(unknown))
+        else:
+            run.holds("IDX/quadrature-pairing", cc, where(g, mine[0][0]), "; ".join(desc) + ": area += product of the weights and the Jacobian")
 
 
 def _point_equalities(run, P):
